@@ -149,6 +149,10 @@ func (m *MemStore) DeleteIfExists(key []byte) error {
 }
 
 func deleteInternal(m *MemStore, key []byte, errorIfKeyNotFound bool) error {
+	if key == nil {
+		return KeyNil
+	}
+
 	element, err := m.skipListMap.Get(key)
 	if errors.Is(err, skiplist.NotFound) {
 		if errorIfKeyNotFound {
@@ -163,6 +167,10 @@ func deleteInternal(m *MemStore, key []byte, errorIfKeyNotFound bool) error {
 }
 
 func (m *MemStore) Tombstone(key []byte) error {
+	if key == nil {
+		return KeyNil
+	}
+
 	element, err := m.skipListMap.Get(key)
 	if !errors.Is(err, skiplist.NotFound) {
 		prevLen := len(*element.value)
